@@ -17,6 +17,20 @@ CLAIMED = {
                   "sibling contexts), structural AST recognition of the insertion mechanism, typed call-site analysis of raw lxml insertions",
         design="DESIGN.md §4 C10, appendix B.1-B.2",
     ),
+    "C20": dict(
+        level="other",
+        text="Exhaustive finite-table comparison: every BaseXmlEnum member (alias groups by integer value; tokens distinct in "
+             "definition order, the order from_xml searches) against the enumeration of the schema simple type the enum is paired "
+             "with by use (attribute declarations and template attribute positions, found by typed flow); every row of "
+             "autoshape_types against MSO_AUTO_SHAPE_TYPE and against presetShapeDefinitions.xml (guide names, order, defaults); "
+             "the add/read-back path of auto shapes through a:prstGeom/@prst. All obligations are enumerated and decided; the "
+             "level is 'other' rather than 'proof' only because seven genuine disagreements of the pinned tree are carried as "
+             "known findings (duplicate MS-API tokens, the definitions file's upArrow erratum). NOT decided yet: R20.5 chart-type "
+             "writer/inspector inverse; rendering of presets.",
+        technique="static analysis: constant folding of enum/table literals compared with XSD enumerations and the shipped preset "
+                  "definitions; typed interprocedural flow from Enum.to_xml to template attribute positions",
+        design="DESIGN.md §4 C20",
+    ),
 }
 
 _NOT_BUILT = "decidable structural clause designed in DESIGN.md but its checker is not built yet"
@@ -25,7 +39,7 @@ NOT_APPLICABLE = {
     "C01": _NOT_BUILT, "C02": _NOT_BUILT, "C03": _NOT_BUILT, "C04": _NOT_BUILT, "C05": _NOT_BUILT,
     "C06": _NOT_BUILT, "C07": _NOT_BUILT, "C08": _NOT_BUILT, "C09": _NOT_BUILT,
     "C11": _NOT_BUILT, "C12": _NOT_BUILT, "C13": _NOT_BUILT, "C14": _NOT_BUILT, "C15": _NOT_BUILT,
-    "C16": _NOT_BUILT, "C17": _NOT_BUILT, "C18": _NOT_BUILT, "C20": _NOT_BUILT,
+    "C16": _NOT_BUILT, "C17": _NOT_BUILT, "C18": _NOT_BUILT,
     "C19": "part-name arithmetic is an equation between values of pure string functions (posixpath "
            "semantics) over all name pairs; no table, ordering or ownership fact in the source determines it; "
            "bounding it needs concrete or symbolic evaluation, a different technique family",
